@@ -42,7 +42,7 @@
 (* calls are scheduling points (what the harness can realise on the real   *)
 (* controllers by blocking goroutines at the API choke point).             *)
 (***************************************************************************)
-EXTENDS Naturals, Integers, Sequences, FiniteSets, TLC, Json
+EXTENDS StaticPoolDefs, Json
 
 CONSTANTS N,             \* NodeClaim names are 1..N, used once each in creation order
           Pre,           \* claims 1..Pre exist, launched and tracked in the initial state
@@ -89,36 +89,6 @@ vars == <<api, launched, drifted, replicas, known, marked, cdel, dirty, tainted,
           queue, inf, crash, bud, h, last>>
 view == <<api, launched, drifted, replicas, known, marked, cdel, dirty, tainted, ps, prov, wk, dep, dis, cmd,
           queue, inf, crash, bud>>
-
-\* ---------------------------------------------------------------- NodePoolState (pure; shared with the trace spec)
-\* the struct as implemented: the three sets and the reserved counter exist only while the per-pool entry does
-EmptyPS == [entry |-> FALSE, act |-> {}, del |-> {}, pend |-> {}, res |-> 0, map |-> {}]
-Ensure(s) == IF s.entry THEN s ELSE [s EXCEPT !.entry = TRUE]
-\* the Mark* methods do not consult the claim->pool mapping: marking a claim whose Cleanup already ran re-inserts a
-\* name that nothing will ever remove again.  "fixed": a claim that is not tracked (any more) is not marked.
-Skip(s, n, mode) == mode = "fixed" /\ n \notin s.map
-PsMarkActive(s, n, mode)   == IF Skip(s, n, mode) THEN s ELSE
-                              LET t == Ensure(s) IN [t EXCEPT !.act = @ \cup {n}, !.del = @ \ {n}, !.pend = @ \ {n}]
-PsMarkDeleting(s, n, mode) == IF Skip(s, n, mode) THEN s ELSE
-                              LET t == Ensure(s) IN [t EXCEPT !.del = @ \cup {n}, !.act = @ \ {n}, !.pend = @ \ {n}]
-PsMarkPending(s, n, mode)  == IF Skip(s, n, mode) THEN s ELSE
-                              LET t == Ensure(s) IN [t EXCEPT !.pend = @ \cup {n}, !.act = @ \ {n}, !.del = @ \ {n}]
-PsUpdate(s, n, mfd)  == LET t == [Ensure(s) EXCEPT !.map = @ \cup {n}]
-                        IN IF mfd THEN PsMarkDeleting(t, n, "code") ELSE PsMarkActive(t, n, "code")
-\* Cleanup finds the pool through the claim->pool mapping; it garbage-collects the pool entry (sets AND reserved
-\* counter) when Active and Deleting are empty.  "fixed": only when nothing at all is left to remember.
-PsCleanup(s, n, mode) ==
-    LET hit == n \in s.map /\ s.entry
-        t == IF hit THEN [s EXCEPT !.act = @ \ {n}, !.del = @ \ {n}, !.pend = @ \ {n}] ELSE s
-        gc == hit /\ t.act = {} /\ t.del = {} /\ (mode = "fixed" => (t.pend = {} /\ t.res = 0))
-        u == IF gc THEN [t EXCEPT !.entry = FALSE, !.pend = {}, !.res = 0] ELSE t
-    IN [u EXCEPT !.map = @ \ {n}]
-PsTotal(s) == Cardinality(s.act) + Cardinality(s.del) + Cardinality(s.pend)
-Min(a, b) == IF a < b THEN a ELSE b
-PsGrant(s, limit, want) == LET rem == limit - PsTotal(s) - s.res IN IF rem < 0 THEN 0 ELSE Min(want, rem)
-PsReserve(s, limit, want) == LET t == Ensure(s) IN [t EXCEPT !.res = @ + PsGrant(t, limit, want)]
-PsReleaseCrashes(s, mode) == ~s.entry /\ mode = "code"
-PsRelease(s, k) == IF ~s.entry THEN s ELSE [s EXCEPT !.res = IF @ < k THEN 0 ELSE @ - k]
 
 \* ---------------------------------------------------------------- helpers
 Live == {n \in NCs : api[n] = "live"}
@@ -513,6 +483,13 @@ Inv_C03_ReservedCovers == ps.res >= Outstanding
 Inv_C03_CountsMatchSets == \A n \in InApi : (known[n] # "none" /\ inf[n] = "idle") => n \in ps.act \cup ps.del \cup ps.pend
 \* a candidate handed to the orchestration queue is tracked until it is gone
 Inv_C03_PendingTracked == \A c \in NCs : (cmd[c].pc = "creating" /\ api[c] # "gone") => c \in ps.act \cup ps.del \cup ps.pend
+\* the two reasons why the count settles, as safety properties: the reserved counter is exactly what is still to be
+\* released (nothing leaks), and every tracked name is a NodeClaim that exists or whose deletion is still to be delivered
+Holding == Cardinality({w \in Workers : wk[w].pc \in {"get", "create", "seed", "release"}})
+           + Cardinality({c \in NCs : cmd[c].pc \in {"taint", "pend"}})
+Inv_C03_ReservedExact == ps.res = Holding
+Inv_C03_NoGhost == \A n \in ps.act \cup ps.del \cup ps.pend :
+                      api[n] \in {"live", "deleting"} \/ n \in dirty \/ known[n] = "nopid"
 \* no name exhaustion in the explored scope (else liveness would fail for lack of names)
 Inv_NamesSuffice == (\E w \in Workers : wk[w].pc = "create") => Free # {}
 
@@ -523,6 +500,14 @@ Inv_NamesSuffice == (\E w \in Workers : wk[w].pc = "create") => Free # {}
 \* are behaviours that stop converging although names remain: a leaked reservation, an entry nothing removes.
 Settled == Cardinality(Live) = replicas /\ InApi = Live
 Live_C03_Settles == <>[](Settled \/ Free = {})
+
+\* Weak configs (CodeMode = "code", Record = "all", history hidden by the VIEW): print the history that led to the
+\* violation so that the counterexample can be replayed on the real code, then report the violation
+Cex(inv) == inv \/ (PrintT(<<"BEH", ToJson(h)>>) /\ FALSE)
+Cex_NoCrash == Cex(Inv_C03_NoCrash)
+Cex_StaticCap == Cex(Inv_C03_StaticCap)
+Cex_ReservedExact == Cex(Inv_C03_ReservedExact)
+Cex_NoGhost == Cex(Inv_C03_NoGhost)
 
 GenPrint == (Len(h) < MaxLen /\ ~crash /\ ENABLED Next) \/ Record # "all" \/ PrintT(<<"BEH", ToJson(h)>>)
 =============================================================================
